@@ -50,6 +50,21 @@ impl Area for MacroArea {
     }
     fn exec(&self, lines: &[String], stats: &mut Stats) -> ExecOut {
         let mut outs = vec![]; let mut fails: Vec<Failure> = vec![];
+        // the process's very FIRST uses of the default registry, made by several threads at once: every metric a `register_*!` call without
+        // registry returned Ok for must be in prometheus::gather() (a lazily initialised default registry must be initialised exactly once)
+        static FIRST_USE: std::sync::Once = std::sync::Once::new();
+        FIRST_USE.call_once(|| {
+            let n = 16; let go = std::sync::Arc::new(std::sync::atomic::AtomicUsize::new(0));
+            let hs: Vec<_> = (0..n).map(|i| { let go = go.clone(); std::thread::spawn(move || {
+                go.fetch_add(1, std::sync::atomic::Ordering::SeqCst); while go.load(std::sync::atomic::Ordering::SeqCst) < n { std::hint::spin_loop(); }
+                let name = format!("pv_first_use_{}", i);
+                register_int_counter!(name.clone(), "first use").map(|c| { c.inc(); name }).ok() }) }).collect();
+            let names: Vec<Option<String>> = hs.into_iter().map(|h| h.join().unwrap()).collect();
+            let seen: Vec<String> = prometheus::gather().iter().map(|f| f.name().to_string()).collect();
+            let lost: Vec<&String> = names.iter().flatten().filter(|nm| !seen.contains(nm)).collect();
+            stats.hit("default-registry-first-use-race-checked");
+            if !lost.is_empty() || names.iter().any(|x| x.is_none()) { fails.push(Failure { class: "registered-in-wrong-registry".into(), detail: format!("{} of {} metrics registered without a registry argument by the first {} concurrent calls of the process are not in prometheus::gather() (or the call was refused): {:?}", lost.len(), n, n, lost) }); }
+        });
         for line in lines {
             let p: Vec<&str> = line.split(' ').collect();
             let site = field(&p, "site").unwrap(); let comma = field(&p, "comma") == Some("1");
